@@ -85,11 +85,22 @@ def reduceAxis [Inhabited α] (f : List α → β) (a : Arr α) (ax : Nat) : Arr
   ofFn (eraseAt a.shape ax)
     (fun idx => f ((List.range (a.shape.getD ax 0)).map (fun i => a.get (insertAt idx ax i))))
 
-/-- map a list function along axis `ax`; the function may change the length to `m` -/
-def mapAxis [Inhabited α] [Inhabited β] (f : List α → List β) (m : Nat) (a : Arr α) (ax : Nat) : Arr β :=
+/-- map a list function along axis `ax`; the function may change the length to `m` — the SPECIFICATION: every output
+    element is read off `f` applied to the trace through it -/
+def mapAxisSpec [Inhabited α] [Inhabited β] (f : List α → List β) (m : Nat) (a : Arr α) (ax : Nat) : Arr β :=
   ofFn (setAt a.shape ax m)
     (fun idx =>
       (f ((List.range (a.shape.getD ax 0)).map (fun i => a.get (setAt idx ax i)))).getD (idx.getD ax 0) default)
+
+/-- the same array, computed with ONE application of `f` per trace (the traces are numbered by the row-major offset of
+    the remaining axes); equal to `mapAxisSpec` for every in-range axis (`mapAxis_eq_spec`) -/
+def mapAxis [Inhabited α] [Inhabited β] (f : List α → List β) (m : Nat) (a : Arr α) (ax : Nat) : Arr β :=
+  let n := a.shape.getD ax 0
+  let outer := eraseAt a.shape ax
+  let table : Array (List β) :=
+    ((Arr.indices outer).map (fun o => f ((List.range n).map (fun i => a.get (insertAt o ax i))))).toArray
+  ofFn (setAt a.shape ax m)
+    (fun idx => (table.getD (ravel (eraseAt idx ax) outer) []).getD (idx.getD ax 0) default)
 
 /-- multiply along an axis by a per-position factor (broadcast of a 1-D array) -/
 def zipAxis [Inhabited α] [Inhabited β] {γ : Type} (g : α → β → γ) (a : Arr α) (ax : Nat) (w : List β) : Arr γ :=
